@@ -267,6 +267,14 @@ func (call *mxCall) run() *mxObs {
 			if req.Form == wire.REST {
 				rcodec = "json"
 			}
+			if bk.Seen.ReadErr != "" {
+				return world.EchoReply(req, nil, "", &wire.End{Code: 1, Message: "request body read error: " + bk.Seen.ReadErr})
+			}
+			for _, cmp := range req.Complaints {
+				if strings.HasPrefix(cmp.Clause, "req.envelope") || strings.HasPrefix(cmp.Clause, "req.flat") {
+					return world.EchoReply(req, nil, "", &wire.End{Code: 3, Message: "malformed request: " + cmp.String()})
+				}
+			}
 			if (b.Client.shape == "unary" || b.Client.shape == "server") && len(req.Msgs) != 1 {
 				return world.EchoReply(req, nil, "", &wire.End{Code: 12, Message: fmt.Sprintf("unary request with %d messages", len(req.Msgs))})
 			}
@@ -345,9 +353,12 @@ func defaultMsgs(shape string) (req, resp []proto.Message) {
 }
 
 // decodeAll decodes codec-encoded payloads; an undecodable one yields nil at its index.
-func decodeAll(codec string, desc protoreflectMD, payloads [][]byte) []proto.Message {
+func decodeAll(codec string, desc protoreflectMD, payloads [][]byte, bad ...[]bool) []proto.Message {
 	out := make([]proto.Message, len(payloads))
 	for i, p := range payloads {
+		if len(bad) > 0 && i < len(bad[0]) && bad[0][i] {
+			continue // the peer could not even decompress this one
+		}
 		m, err := wire.Unmarshal(codec, desc, p)
 		if err == nil {
 			out[i] = m
@@ -389,4 +400,26 @@ func renderMsgs(ms []proto.Message) string {
 		s = s[:500] + "..."
 	}
 	return s
+}
+
+// SrvRespBody re-encodes what the reference backend sent (debugging aid).
+func (o *mxObs) SrvRespBody() []byte {
+	if o.SrvResp == nil {
+		return nil
+	}
+	return o.SrvResp.Encode().Body
+}
+
+func (o *mxObs) BReqCodec() string {
+	if o.BReq == nil {
+		return "proto"
+	}
+	return o.BReq.Codec
+}
+
+func (o *mxObs) BReqMsgs() [][]byte {
+	if o.BReq == nil {
+		return nil
+	}
+	return o.BReq.Msgs
 }
